@@ -185,13 +185,26 @@ def check(case):
                 case['iface'], case['workers'], case['chunksize'], case['threads'], ''.join(', %s=%r' % kv for kv in sorted(akw.items()))))
         if what == 'batch':
             # the Batch labels are not the frames' names (every third frame has no name at all)
-            frames = [sf.Frame(np.array([[i * 100 + 1, i * 100 + 2], [3, 4]]), columns=('a', 'b'), name=('f%d' % i if i % 3 else None)) for i in range(n)]
-            items = [('L%d' % i, f) for i, f in enumerate(frames)]
+            grown = bool(case.get('akw'))   # (grow-only members that gained a column which nothing has read yet: half of the cases)
+
+            def mk_items():
+                # built anew for every run, so that the sequential run does not read (and thereby refresh) what the pool is given
+                out = []
+                for i in range(n):
+                    f = sf.Frame(np.array([[i * 100 + 1, i * 100 + 2], [3, 4]]), columns=('a', 'b'), name=('f%d' % i if i % 3 else None))
+                    if grown:
+                        f = f.to_frame_go()
+                        f.columns.values  # the labels are read once, then the frame grows
+                        f['c'] = np.array([i, 5])
+                    out.append(('L%d' % i, f))
+                return out
             op = case['batch_op']
+            classes.append('members:grown-go' if grown else 'members:static')
 
             def run(workers):
                 # (the *_except forms document chunksize 1 only)
                 cs = 1 if op.endswith('_except') else case['chunksize']
+                items = mk_items()
                 b = sf.Batch(iter(items), max_workers=workers, use_threads=case['threads'], chunksize=cs) if workers else sf.Batch(iter(items))
                 if op == 'apply':
                     return b.apply(task_frame).to_frame()
